@@ -8,7 +8,9 @@
   (an absent key and a key with an empty `Vec` are indistinguishable through the public API:
   `get` uses `last()?`, `iter`/`env_c_strings` skip empty stacks); whoever iterates supplies the
   finite list of names to visit (the driver passes every name a case mentions), the order being
-  unspecified in Rust (the harness sorts).  `Location`s are numbers.  `Quirk` is not modelled.
+  unspecified in Rust (the harness sorts).  `Location`s are numbers (the location `Variable::expand`
+  reads is `Loc` below).  `Quirk` (extension round): the `quirk` field, `set_quirk`, `init` and
+  `Variable::expand` are modelled at the end of this file and in `Init.lean`.
 
   A `&mut self` method becomes a function returning the new set; the RAII guard of
   `push_context` becomes `pushContext … popContext`.  Import-free, executable.
@@ -23,12 +25,18 @@ inductive Value where
   | array (vs : List String)
   deriving DecidableEq, Repr, Inhabited
 
-/-- `variable/main.rs` `Variable` (without `quirk`); locations are numbers -/
+/-- `variable/quirk.rs` `Quirk` -/
+inductive Quirk where
+  | lineNumber
+  deriving DecidableEq, Repr, Inhabited
+
+/-- `variable/main.rs` `Variable`; locations are numbers -/
 structure Variable where
   value : Option Value := none
   lastAssigned : Option Nat := none
   exported : Bool := false
   readOnly : Option Nat := none
+  quirk : Option Quirk := none
   deriving DecidableEq, Repr, Inhabited
 
 /-- `Variable::is_read_only` -/
@@ -139,6 +147,9 @@ def Variable.setExport (v : Variable) (b : Bool) : Variable := { v with exported
 def Variable.makeReadOnly (v : Variable) (loc : Nat) : Variable :=
   { v with readOnly := some (v.readOnly.getD loc) }
 
+/-- `VariableRefMut::set_quirk` (overwrites any existing quirk) -/
+def Variable.setQuirk (v : Variable) (q : Option Quirk) : Variable := { v with quirk := q }
+
 /-- `slice::partition_point` on a slice partitioned by `p` -/
 def partitionPoint {α} (p : α → Bool) (l : List α) : Nat := (l.takeWhile p).length
 
@@ -230,6 +241,7 @@ inductive Op where
   | readonly (n : Name) (scope : Scope) (loc : Nat)
   | unset (n : Name) (scope : Scope)
   | setParams (ps : List String)
+  | quirk (n : Name) (scope : Scope) (q : Option Quirk)
   deriving Repr
 
 inductive Res where
@@ -270,6 +282,10 @@ def VariableSet.step (s : VariableSet) : Op → VariableSet × Res
     | (s1, .ok old) => (s1, .unset old)
     | (s1, .readOnly l) => (s1, .readOnly l)
   | .setParams ps => (s.setPositionalParams ps, .done)
+  | .quirk n sc q =>
+    match s.getOrNew n sc with
+    | none => (s, .noVolatile)
+    | some s1 => (s1.modifyLast n (·.setQuirk q), .done)
 
 /-- `VariableSet::get_scalar`: the value of a scalar variable (`None` for unset values and arrays) -/
 def scalarOf : Option Variable → Option String
@@ -294,5 +310,53 @@ def VariableSet.extendEnv (s : VariableSet) : List (Name × String) → Variable
 def VariableSet.run (s : VariableSet) : List Op → VariableSet
   | [] => s
   | op :: ops => (s.step op).1.run ops
+
+/-! ### quirks, `Variable::expand`, `VariableSet::init` (extension round) -/
+
+/-- `source.rs` `Location`, reduced to what `quirk::expand` reads: the code's first line number and
+    text, the character index `range.start`, and — when `code.source` is `Source::Alias` — the
+    location of the word the alias replaced (`original`).  Every other `Source` variant is `none`. -/
+inductive Loc where
+  | plain (startLine : Nat) (text : String) (start : Nat)
+  | alias (startLine : Nat) (text : String) (start : Nat) (original : Loc)
+  deriving Repr
+
+/-- `Code::line_number`: `start_line_number` plus the number of newlines among the first
+    `char_index` characters (`saturating_add` on `u64` is not modelled: numbers stay small) -/
+def lineNumber (startLine : Nat) (text : String) (charIndex : Nat) : Nat :=
+  startLine + ((text.toList.take charIndex).filter (· == '\n')).length
+
+/-- `variable/quirk.rs` `Expansion` -/
+inductive Expansion where
+  | unset
+  | scalar (s : String)
+  | array (vs : List String)
+  deriving DecidableEq, Repr
+
+/-- `impl From<Option<&Value>> for Expansion` -/
+def Expansion.ofValue : Option Value → Expansion
+  | none => .unset
+  | some (.scalar s) => .scalar s
+  | some (.array vs) => .array vs
+
+/-- the `while let Source::Alias { original, .. } = &*location.code.source` loop of `quirk::expand`
+    followed by `location.code.line_number(location.range.start)` -/
+def Loc.line : Loc → Nat
+  | .plain startLine text start => lineNumber startLine text start
+  | .alias _ _ _ original => original.line
+
+/-- `variable/quirk.rs` `expand` (= `Variable::expand`): no quirk → the value; `LineNumber` → the
+    line number of the location as a decimal string, whatever the value is -/
+def Variable.expand (v : Variable) (loc : Loc) : Expansion :=
+  match v.quirk with
+  | none => Expansion.ofValue v.value
+  | some .lineNumber => .scalar (toString loc.line)
+
+/-- the operations of `VariableSet::init`: for every `(name, value)` of its `VARIABLES` table
+    `get_or_new(name, Global).assign(value, None).ok()` (a refusal is ignored), then
+    `get_or_new(LINENO, Global).set_quirk(Some(Quirk::LineNumber))` -/
+def initOps (variables : List (Name × String)) (lineno : Name) : List Op :=
+  variables.map (fun p => Op.assign p.1 .global (.scalar p.2) none) ++
+    [Op.quirk lineno .global (some .lineNumber)]
 
 end YashModel.Variable
